@@ -568,3 +568,67 @@ def c02_7(R):
 def lock_like(b, it):
     from utpsa.locks import lock_call
     return lock_call(b, it)
+
+
+@rule("C02.10", ["C02", "C07", "C06", "C08"], ["E7", "E4"], "the timer primitive does what its callers assume",
+      "Timer::arm stores Armed { now + delay } when idle or when restart is requested, and Armed { min(old deadline, now + delay) } otherwise (a non-restarting arm never postpones); turn_off and take "
+      "leave the timer Idle (take hands back the old value); set stores Armed { the given instant }; poll_at is None when idle and Some(expires_at) when armed; expired is expires_at <= now (C07.4); "
+      "restart_remote_inactivity_timer arms the inactivity timer from this_poll.now with socket_opts.remote_inactivity_timeout and restart = true.")
+def c02_10(R):
+    T = "stream_dispatch::Timer"
+    arm = R.body(T + "::arm")
+
+    def is_sum(t):
+        return t.kind == "call" and "Add" in (t.root[1].callee_full or t.root[1].resolved or "") and len(t.root[1].args) == 2 and (lambda a, b: a.kind == "param" and a.root[1] == 2 and b.kind == "param" and b.root[1] == 3)(trace(arm, t.root[1].args[0]), trace(arm, t.root[1].args[1]))
+    n = 0
+    for s in arm.stmts():
+        if s.rv.kind == "agg" and s.rv.j.get("variant") == "Armed" and s.rv.ops:
+            n += 1
+            descs = [d for c, truth, d, *_ in controlling(arm, s.bb)]
+            restart_false = any(d in ("var:param#4=false",) or (d.startswith("var:") and "param#4" in d and d.endswith("=false")) for d in descs)
+            x = trace(arm, s.rv.ops[0])
+            if restart_false:
+                sel = select_minmax(arm, s.rv.ops[0])
+                ok = sel is not None and sel[0] == "min" and any(a.last_field == "Timer::Armed.expires_at" and is_sum(b_) for a, b_ in ((sel[1], sel[2]), (sel[2], sel[1])))
+                what = "armed && !restart => min(old, now + delay)"
+            else:
+                ok = is_sum(x)
+                what = "idle or restart => now + delay"
+            if ok:
+                R.ok("timer-arm", what)
+            else:
+                R.fail([arm.name, "deadline", "restart=false" if restart_false else "idle-or-restart", x.describe()[:50]], "Timer::arm no longer stores %s" % what.split("=> ")[1] + (": a non-restarting arm can postpone an already pending deadline (delayed ACK / retransmission fire late)" if restart_false else ""), where=s.where(), instance="timer-arm")
+    R.floor("Armed { .. } stores in Timer::arm", n, 2)  # the idle and the restart arm may be merged
+    for fn in ("turn_off", "take"):
+        b = R.body(T + "::" + fn)
+        idle = [s for s in b.stmts() if s.place.proj == ["*"] and s.place.local == 1 and s.rv.ops and classify(b, s.rv.ops[0]).endswith("Idle")]
+        if idle and all(must_pass_blocks(b, b.return_blocks(), {s.bb for s in idle})[0] for _ in (0,)):
+            R.ok("timer-" + fn, b.name, "*self = Idle on every path")
+        else:
+            R.fail([b.name, "does-not-idle"], "Timer::%s can return with the timer still armed" % fn, where=b.where(), instance="timer-" + fn)
+    st = R.body(T + "::set")
+    def armed_with_param(s):
+        if s.place.proj != ["*"] or not s.rv.ops:
+            return False
+        t = trace(st, s.rv.ops[0])
+        return t.kind == "rv" and t.root[1].rv.kind == "agg" and t.root[1].rv.j.get("variant") == "Armed" and (lambda x: x.kind == "param" and x.root[1] == 2)(trace(st, t.root[1].rv.ops[0]))
+    oks = any(armed_with_param(s) for s in st.stmts())
+    if oks:
+        R.ok("timer-set", st.name, "*self = Armed { expires_at }")
+    else:
+        R.fail([st.name, "shape"], "Timer::set no longer stores the given instant", where=st.where(), instance="timer-set")
+    pa = R.body(T + "::poll_at")
+    cls = sorted(set(c for it, c in ret_assignments(pa)))
+    some_ok = any(s.rv.kind == "agg" and s.rv.j.get("variant") == "Some" and trace(pa, s.rv.ops[0]).last_field == "Timer::Armed.expires_at" for s in pa.stmts())
+    if "None" in cls and some_ok:
+        R.ok("timer-poll_at", pa.name, "Idle => None, Armed => Some(expires_at)")
+    else:
+        R.fail([pa.name, "shape", ",".join(cls)], "Timer::poll_at no longer reports the armed deadline", where=pa.where(), instance="timer-poll_at")
+    ri = R.body(VS + "::restart_remote_inactivity_timer")
+    arms = [t for t in ri.calls() if call_matches(t, (T + "::arm",))]
+    okr = len(arms) == 1 and trace(ri, arms[0].args[0]).last_field == "Timers.remote_inactivity_timer" and trace(ri, arms[0].args[1]).last_field == "ThisPoll.now" \
+        and trace(ri, arms[0].args[2]).last_field == "ValidatedSocketOpts.remote_inactivity_timeout" and arms[0].args[3].kind == "const" and arms[0].args[3].scalar == 1
+    if okr:
+        R.ok("restart-inactivity", ri.name, "arm(now, remote_inactivity_timeout, restart = true)")
+    else:
+        R.fail([ri.name, "shape"], "restart_remote_inactivity_timer no longer re-arms the inactivity timer from now with the configured timeout and restart = true", where=ri.where(), instance="restart-inactivity")
